@@ -2,8 +2,11 @@
 from ..core import Script
 from .. import tablegen
 
+from . import _nodecommon
+from .. import nodegen
+
 ID = "C11"
-SUITES = ["range", "table"]
+SUITES = ["range", "table", "node"]
 LEAN_MODULES = ["VpnCloud.Proofs.C11"]
 THEOREMS = ["VpnCloud.Proofs.C11." + n for n in ("matches_iff_prefix", "no_u8_overflow", "lookup_spec", "lookup_most_specific", "cache_lifetime")]
 BATCH = 200
@@ -55,9 +58,22 @@ def classify(script, result):
     return None
 
 
-def gen(tier, rng):
+def _gen_base(tier, rng):
     ops = tablegen.range_ops(tier, rng.fork("range"))
     for i in range(0, len(ops), 100):
         yield Script("range-%d" % (i // 100), ops[i:i + 100], {"suite": "range"})
     for s in tablegen.table_scripts(tier, rng.fork("table")):
         yield s
+
+
+def gen(tier, rng):
+    for x in _gen_base(tier, rng):
+        yield x
+    thorough = tier == "thorough"
+    # node level: router drops (and counts) what no live claim contains, switch and hub send it to all peers
+    r = rng.fork("node")
+    yield nodegen.c10_script(r, "node-router", 3, "router", "tun", 60 if thorough else 25)
+    yield nodegen.c10_script(r, "node-switch", 3, "switch", "tun", 60 if thorough else 25)
+    yield nodegen.c10_script(r, "node-hub", 3, "hub", "tap", 60 if thorough else 25)
+
+obs_class, nontrivial_key = _nodecommon.with_node(obs_class, nontrivial_key)
